@@ -25,10 +25,22 @@ Tie
       vrs       srs.vrs on uniform / log / random grids, with and without off-grid Fn, vs the model's
                 area weights and transmissibility (psd.interp's output fed to both sides); merged grid
                 np.unique(hstack(freq, Fn)) exactly; Miles' value
+      frf       srs.srs_frf as a routine vs the model `srsFrf` (Model/SrsFrf.lean): what is returned (sh / srs_frq /
+                resp, shapes incl. resp['frfs'] = (len(freq), nfrf, len(srs_frq))) EXACT; the merged analysis grid
+                resp['freq'] EXACT (bit patterns; near-duplicate chains, gaps around and equal to 1e-5, default
+                srs_frq, unsorted / repeated oscillators); sh and the complex frfs numerically (1e-9); magnitude /
+                signed / complex / 1-D / one-line FRFs, scale_by_Q_only, rigid-body threshold, the refused option
+                pair, dtype axis (float32 / complex64 / int / lists)
+      freqvec   srs.srs with repeated (adjacent / apart), unsorted and zero entries of `freq` (incl. ic='steady' at
+                0 Hz), 1-D / 2-D / one-oscillator packaging: sh.shape, hist.shape EXACT, values 1e-9; dtype axis:
+                float32 / int / list signals and frequency vectors
+      callable  srs.srs with a callable `peak` (mean square, abs) x eqsine vs the model `srsColG`
 Oracle (model-free): exact oscillator response by an augmented-matrix exponential
 (scipy.linalg.expm, dimensionless time) under each initial-condition rule, window and peak
-statistic; roll-off decision and factor in exact rational arithmetic; spectrum relations;
-srs_frf / vrs / Miles closed forms.
+statistic; roll-off decision and factor in exact rational arithmetic; spectrum relations (incl. re-ordered /
+repeated frequency vectors bit for bit, shapes, callable peaks, rms, dtype); srs_frf restated with numpy only
+(union grid, de-duplication, np.interp, transfer function, maximum, scale_by_Q_only, defaults, getresp
+dictionary); vrs / Miles closed forms.
 """
 import math
 import struct
@@ -38,7 +50,8 @@ import numpy as np
 from runner import TieBroken
 
 ID = "C03"
-LEAN_MODULES = ["PyYetiVerif.Props.C03", "PyYetiVerif.Props.C03b", "PyYetiVerif.Props.C03c", "PyYetiVerif.Audit.C03"]
+LEAN_MODULES = ["PyYetiVerif.Props.C03", "PyYetiVerif.Props.C03b", "PyYetiVerif.Props.C03c", "PyYetiVerif.Props.C03d",
+                "PyYetiVerif.Props.C03e", "PyYetiVerif.Audit.C03"]
 AUDIT_FILE = "PyYetiVerif/Audit/C03.lean"
 THEOREMS = [
     "PyYetiVerif.C03." + n
@@ -56,7 +69,11 @@ THEOREMS = [
         "vrs_grid_mem vrs_weights vrs_gain_is_normSq_H vrs_is_quadrature_of_H2_psd vrs_needs_two_points srs_frf_gain_is_H "
         "rolloff_linear_grid_consistent_iff srs_column_zero_hz_is_rigid_response_peak "
         # Props/C03c.lean
-        "miles_integrand_is_normSq miles_white_noise_integral miles_is_white_noise_integral"
+        "miles_integrand_is_normSq miles_white_noise_integral miles_is_white_noise_integral "
+        # Props/C03d.lean (srs_frf as a routine)
+        "srs_frf_sort_spec srs_frf_grid_spec srs_frf_grid_gap srs_frf_grid_head srs_frf_interp_segment srs_frf_interp_node srs_frf_interp_zero_outside srs_frf_is_max_over_merged_grid srs_frf_rigid_body_is_zero srs_frf_entries srs_frf_value_spec srs_frf_abs_invariant srs_frf_scale_by_Q srs_frf_scale_by_Q_default_is_Q_times_abs srs_frf_return_defaults srs_frf_default_frq_puts_peak_on_frf_lines srs_frf_resp_shapes srs_frf_getresp_with_scale_by_Q_raises srs_frf_p_peak_maximises_H srs_frf_le_flat_bound srs_frf_vrs_consistent "
+        # Props/C03e.lean (frequency vector, 0 Hz steady, packaging, callable peaks)
+        "srs_column_depends_only_on_its_frequency srs_rolled_column_depends_only_on_its_frequency srs_rows_follow_the_frequency_vector srs_frequency_permutation srs_repeated_frequency_repeats_row srs_zero_hz_steady_history srs_zero_hz_steady_absacce_is_constant srs_columnwise srs_shapes srs_hist_lengths_uniform srs_packaging_1d eqsine_commutes_iff_homogeneous peak_sel_pos_homogeneous mean_square_not_homogeneous eqsine_history_divided_before_peak srs_callable_peak_eqsine srs_string_peak_is_callable_instance peak_rms_le_abs"
     ).split()
 ]
 TRUSTED = [
@@ -68,8 +85,11 @@ TRUSTED = [
     "VALUES (dsp.resample, scipy.signal.resample, filtfilt, interp1d) are not modelled: the real output is fed to the model "
     "(contract: C19); the lengths N*factor-1 / factor*(N - N%2) / N*factor are measured by the index stream",
     "vrs: merged grid, quadrature weights, transmissibility and Miles' formula are modelled and tied; psd.interp is fed to both "
-    "sides; srs_frf: the transfer function identity is proved, the routine itself (frequency merging, interpolation, max) is "
-    "checked by the oracle only",
+    "sides",
+    "srs_frf: np.sort modelled as insertion sort, np.diff(...) > 1e-5 as the predecessor test, scipy interp1d(kind='linear', "
+    "fill_value=0, assume_sorted=True) as its 2-D code path _call_linear (searchsorted-left, clip to [1, n-1], slope*(x-x_lo)+y_lo), "
+    "complex division / abs as real arithmetic on (re, im) pairs (numpy uses Smith's division and hypot: measured, 1e-9); "
+    "frf_frq is assumed strictly increasing (the code passes assume_sorted=True and does not check)",
 ]
 RULE = (
     "coef: seeded (Q, sr, fn) with Q in (0.5, 200], sr/fn log-uniform in [2.05, 2000] plus wn = 0, six stypes; "
@@ -79,8 +99,12 @@ RULE = (
     "srs.srs call compared on all histories and spectrum values; rolloff: the four resamplers, ppc in {8, 10.5, 12, 20}, "
     "triggered and not triggered, records of 2-128 samples; index: 5 rolloff x 3 time x 9-11 lengths (1, 2, ...) x 13 "
     "(sr, freq, ppc) configurations (boundary sr/max(freq) = ppc, one ulp below/above, 0 Hz, several ppc); "
-    "exact0/steady/resid: six stypes x seeded records; non-trivial = the response history is not identically zero; "
-    "distinct by the full input"
+    "exact0/steady/resid: six stypes x seeded records; frf: 60 (thorough 400) random FRFs (2-12 lines, 1-3 columns, magnitude / "
+    "signed / complex, 1-5 oscillators inside and outside the FRF band, sorted / unsorted / repeated, getresp and return_srs_frq "
+    "cycled), default srs_frq, 10 near-duplicate gap patterns x 3 bases, one-line FRFs, scale_by_Q_only, five oscillators around the "
+    "rigid-body threshold, the refused option pair, six dtype variants; freqvec: 24 stype x ic combinations x 2 (thorough 8) rounds "
+    "with a repeated / unsorted / zero-containing frequency vector, records of 1-60 samples with a non-zero first sample, plus 16 "
+    "(64) dtype cases; callable: 48 (200) cases; non-trivial = the response history is not identically zero; distinct by the full input"
 )
 ASSUMPTIONS = [
     "sr/fn <= 2000 and Q > 0.5 (the property's conditioning domain); inputs outside are not generated",
@@ -92,20 +116,35 @@ ASSUMPTIONS = [
     "the error case, not counted as a failure",
     "peak='rms' on an empty residual window returns nan with a RuntimeWarning instead of raising: the model's error case "
     "covers it (index/errors streams use peak='abs')",
+    "single-precision inputs: a float32 signal is shifted by the ic rule in single precision (sig - sig[0], sig - mean) and a "
+    "float32 srs_frq of srs_frf gives single-precision natural frequencies: agreement is required to 1e-6 (1e-5 for the complex "
+    "frfs next to a resonance) instead of 1e-9; a float32 `freq` of srs.srs makes ceil(sr/minf) a single-precision quotient: only "
+    "frequencies whose cycle length sr/f is at least 0.15 away from an integer are generated for that dtype",
+    "srs_frf: frf_frq strictly increasing and finite; oscillators below sqrt(0.005)/(2 pi) = 0.01125 Hz are the code's rigid-body "
+    "branch (zero response, proved for the model, tied by correspondence; the oracle uses the same threshold); p_peak is "
+    "reproduced bit for bit only when Q*Q is exact in double precision (otherwise the grid is compared to 1e-13)",
 ]
 PARTIAL = (
     "time-domain srs path: full for rolloff='none' and f > 0 (srs_column_is_exact_response_peak: every stype x ic x peak x "
     "time x eqsine; steady_ic_exact, shift_ic_exact, residual_is_free_decay), wn = 0 coefficient branches proved exact for the "
     "rigid oscillator and the whole 0 Hz column for ic other than 'steady' (ramp_invariant_rigid, "
-    "srs_column_zero_hz_is_rigid_response_peak; ic='steady' has no steady state at 0 Hz - what the code returns there is tied by "
-    "correspondence only and lies outside the property's domain sr/fn <= 2000); roll-off: decision, factor, new rate, M/N/S and the residual start are proved for ANY resampler of the "
-    "stated output length (rolloff_indices, residual_starts_at_record_end), the resampled values are not modelled (C19) - "
-    "finding srs-rolloff-linear (factor >= 3) is stated as rolloff_linear_grid_consistent_iff; vrs: merged grid, weights, "
-    "|H|^2, quadrature proved (vrs_is_quadrature_of_H2_psd), Miles proved equal to the white-noise integral through the "
-    "pseudo-acceleration transmissibility (miles_is_white_noise_integral; the (1 + 1/Q^2) factor of the absolute-acceleration "
-    "integral is stated in prose only); not proved (oracle/correspondence only): round-off of the recursion, srs_frf's "
-    "frequency merging / interpolation / maximisation (only its transfer function srs_frf_gain_is_H), psd.interp, rms peak "
-    "relations"
+    "srs_column_zero_hz_is_rigid_response_peak); ic='steady' at 0 Hz: what the code returns is now stated and proved for absacce / "
+    "pacce / relacce / relvelo (srs_zero_hz_steady_history: rigid response to sig - sig[0] plus s1 / -s1 / nothing), for reldisp / "
+    "pvelo the code divides by wn = 0 (inf/nan) - excluded by hypothesis, skipped and counted; frequency vector: a cell depends on "
+    "`freq` only through its own entry and the set of entries (srs_column_depends_only_on_its_frequency, also through the roll-off "
+    "step), permutation / repetition proved; packaging / shapes proved on the model (srs_columnwise, srs_shapes, "
+    "srs_hist_lengths_uniform, srs_packaging_1d) and tied exactly; callable peaks and eqsine proved "
+    "(eqsine_commutes_iff_homogeneous, peak_sel_pos_homogeneous, mean_square_not_homogeneous, rms <= abs); roll-off: decision, "
+    "factor, new rate, M/N/S and the residual start are proved for ANY resampler of the stated output length, the resampled values "
+    "are not modelled (C19) - finding srs-rolloff-linear (factor >= 3) is stated as rolloff_linear_grid_consistent_iff; vrs: merged "
+    "grid, weights, |H|^2, quadrature proved, Miles proved equal to the white-noise integral through the pseudo-acceleration "
+    "transmissibility (the (1 + 1/Q^2) factor of the absolute-acceleration integral is stated in prose only); srs_frf: the routine "
+    "is modelled and proved (grid = sorted union minus entries within 1e-5 of their predecessor, linear interpolation with zero "
+    "fill, magnitude first, maximum over the grid of |FRF| |H|, scale_by_Q_only, defaults, getresp shapes, p_peak maximises |H|). "
+    "NOT proved (oracle / correspondence only): round-off of the recursion and of numpy's complex division / hypot; psd.interp and "
+    "the step-size warning of vrs; srs_frf for an unsorted or repeated frf_frq (the code itself assumes sorted input); single-"
+    "precision inputs (measured to 1e-6); srs.srsmap (a one-line call of dsp.waterfall with srs as the mapped function: not "
+    "modelled); the parallel path (C09)"
 )
 MANIFEST = {
     "level_text": "Proof (Lean 4, kernel-checked, standard axioms only): the six coefficient functions of srs.py are "
@@ -124,14 +163,29 @@ MANIFEST = {
     "sr/max(freq) < ppc (strict), the factor ceil(ppc/(sr/mf)) is >= 2 and meets ppc, and for any resampler of the stated output "
     "length M, N, S and resp['t'] refer to the resampled record (rolloff_indices); vrs: the merged grid is the sorted union, the "
     "weights are the stated vector, the gain is |H|^2 of the complex transmissibility, z_vrs is sqrt(trapezoid + half end cells) "
-    "on any grid; srs_frf's transfer function equals H; Miles' value equals sqrt(W * integral_0^inf |H_pa|^2 df) "
-    "(improper integral evaluated in Lean). The model pipeline is tied to srs.srs by numeric correspondence over the full "
-    "option grid and by an exact index correspondence for the roll-off / window bookkeeping.",
+    "on any grid; Miles' value equals sqrt(W * integral_0^inf |H_pa|^2 df) (improper integral evaluated in Lean); srs_frf as a "
+    "routine: the analysis grid is the sorted union of frf_frq and p_peak*srs_frq without the entries that exceed their predecessor "
+    "by no more than 1e-5 (srs_frf_grid_spec / _gap), |FRF| is interpolated linearly with zero outside the FRF band and reproduces "
+    "the FRF lines (srs_frf_interp_*), every spectrum value is the maximum over that grid of |FRF|(W) |H(W/wn)| "
+    "(srs_frf_is_max_over_merged_grid; zero for the rigid-body branch), srs_frf(frf) = srs_frf(|frf|) (srs_frf_abs_invariant), "
+    "scale_by_Q_only gives Q |FRF| exactly on the FRF lines, the srs_frq / return_srs_frq defaults, the getresp shapes, and "
+    "|H(p)| <= |H(p_peak)| for the docstring's p_peak (srs_frf_p_peak_maximises_H); frequency vector: a (frequency, column) cell "
+    "depends on `freq` only through its own entry and the set of entries, so permuting / repeating entries permutes / repeats rows "
+    "(srs_column_depends_only_on_its_frequency, srs_frequency_permutation, srs_repeated_frequency_repeats_row), also through the "
+    "roll-off step; ic='steady' at 0 Hz (srs_zero_hz_steady_history); shapes and 1-D packaging; callable peaks: dividing by Q "
+    "before or after the peak agrees iff the peak is positively homogeneous (eqsine_commutes_iff_homogeneous), the six built-in "
+    "peaks are, a mean square is not; rms <= abs. The model pipeline is tied to srs.srs / srs.srs_frf by numeric correspondence "
+    "over the full option grid and by exact correspondence for the roll-off / window bookkeeping, the srs_frf grid, and every "
+    "returned shape.",
     "level_note": "Trusted: Lean kernel; propext, Classical.choice, Quot.sound; the translator and the Python harness; "
     "scipy.signal.lfilter as modelled (measured). Real-number theorems: floating-point round-off is measured by the "
     "correspondence check and the model-free oracle inside sr/fn <= 2000. Only tied/measured, not proved: the resampled "
-    "values of the four roll-off methods (fed to the model; contract C19), psd.interp, srs_frf's grid merging/interpolation/"
-    "maximum, ic='steady' at 0 Hz. Open finding reported by the oracle: rolloff='linear' with "
+    "values of the four roll-off methods (fed to the model; contract C19), psd.interp, numpy's complex division / hypot in "
+    "srs_frf, single-precision inputs (1e-6), ic='steady' at 0 Hz for reldisp / pvelo (division by zero: skipped), srs.srsmap and "
+    "the parallel path (not modelled here). Public functions of srs.py: absacce relacce reldisp pvelo pacce relvelo (translated "
+    "and proved), _absmeth.._rmsmeth, _process_ic, _add_one_cycle, srs (serial), vrs, srs_frf (modelled), fftroll lanroll "
+    "linroll preroll (when / factor / length modelled, values not), _process_parallel, _dosrs*, _mk_par_globals*, "
+    "createSharedArray, copyToSharedArray (C09), srsmap (not modelled). Open finding reported by the oracle: rolloff='linear' with "
     "factor >= 3 (linroll's np.linspace(0, t_last, N*factor-1) grid is not spaced 1/(sr*factor)).",
     "technique": "Lean 4 proof (Cayley-Hamilton elimination of the exact state recursion into the filter; sympy-found "
     "linear_combination certificates checked by the kernel; explicit antiderivative for Miles) + source->Lean translator + "
@@ -877,6 +931,11 @@ def correspondence(ctx):
 
         add(lines, cb)
 
+    # ---- streams frf / freqvec / callable (second part) ------------------------------------------
+    _corr_frf(ctx, srs, ctx.np_rng(5), add)
+    _corr_freqvec(ctx, srs, ctx.np_rng(6), add)
+    _corr_callable(ctx, srs, ctx.np_rng(7), add)
+
     # ---- run the driver once, dispatch ----------------------------------------------------------
     reps = drv.ask(req)
     for start, cnt, cb in post:
@@ -898,7 +957,486 @@ def correspondence(ctx):
            for t in TIMES]
         + ["index:%s:no-resampler:%s" % (r, t) for r in ("none", "prefilter") for t in TIMES]
         + ["index:N=1", "index:N=2", "index:N=>2", "index:raises"]
+        + ["frf:" + t for t in ("random", "random:magnitude", "random:signed", "random:complex", "default-srs_frq", "near-duplicates",
+                                "near-duplicates:srs_frq", "near-duplicates:frf_frq", "near-duplicates:gap-equal-tol", "single-line",
+                                "single-line:scale_by_Q", "scale_by_Q", "scale_by_Q:default", "rigid-body-threshold", "raises",
+                                "returns-srs_frq", "no-srs_frq", "getresp", "no-resp", "grid-exact", "grid-numeric",
+                                "grid-dropped-near-duplicates", "dtype:frf-float32", "dtype:frf_frq-float32", "dtype:int", "dtype:lists",
+                                "dtype:complex64", "dtype:srs_frq-float32")]
+        + ["freqvec:" + t for t in ("repeated-adjacent", "repeated-apart", "unsorted", "zero-repeated", "zero-unsorted", "zero+steady",
+                                    "repeated+steady")]
+        + ["dtype:" + t for t in ("sig-float32", "sig-int", "sig-list", "freq-float32", "freq-int", "freq-list")]
+        + ["shape:1-D", "shape:2-D", "shape:1-D:LF=1", "freqvec:single"]
+        + ["callable:%s:eqsine=%s" % (w, e) for w in ("ms", "abs") for e in (True, False)]
     )
+
+
+
+# ---------------------------------------------------------------------------------------
+# correspondence, second part: srs_frf as a routine, frequency vectors with repeated / unsorted /
+# zero entries, dtype axis, shapes, callable peaks
+
+
+def _exact_square(Q):
+    from fractions import Fraction
+
+    return Fraction(float(Q) * float(Q)) == Fraction(float(Q)) ** 2
+
+
+def _frf_line(frf2d, frq, sf, Q, getresp, ret, qonly):
+    vals = []
+    for j in range(frf2d.shape[1]):
+        for z in frf2d[:, j]:
+            vals += [float(np.real(z)), float(np.imag(z))]
+    return "frf %d %d %s %s %d %d %s %d %d %s %s" % (
+        1 if qonly else 0, 1 if getresp else 0, "n" if ret is None else int(bool(ret)), _bits(Q), frf2d.shape[1], len(frq), _fl(frq),
+        0 if sf is None else 1, 0 if sf is None else len(sf), "" if sf is None else _fl(sf), _fl(vals))
+
+
+def _parse_frf_reply(rep):
+    """-> None (the model says the code raises) or dict(sh, frq, grid, frfs)"""
+    if rep == "none":
+        return None
+    parts = rep.split("|")
+    if len(parts) != 3:
+        raise ValueError(rep[:60])
+    t = parts[0].split()
+    n, nfrf = int(t[0]), int(t[1])
+    sh = np.array([_unbits(x) for x in t[2:]], float).reshape(n, nfrf)
+    frq = None if parts[1].strip() == "-" else _parse(parts[1])
+    grid = frfs = None
+    if parts[2].strip() != "-":
+        t = parts[2].split()
+        nf = int(t[0])
+        grid = np.array([_unbits(x) for x in t[1:1 + nf]], float)
+        rest = np.array([_unbits(x) for x in t[1 + nf:]], float)
+        frfs = (rest[0::2] + 1j * rest[1::2]).reshape(nf, nfrf, n)
+    return {"sh": sh, "frq": frq, "grid": grid, "frfs": frfs}
+
+
+def _frf_case_dict(frf, frq, sf, Q, getresp=False, ret=None, qonly=False, note=None):
+    frf = np.asarray(frf)
+    d = {"kind": "frf", "frf_frq": np.asarray(frq, float).tolist(), "frf": np.real(frf).astype(float).tolist(),
+         "frf_imag": np.imag(frf).astype(float).tolist() if np.iscomplexobj(frf) else None,
+         "srs_frq": None if sf is None else np.asarray(sf, float).tolist(), "Q": float(Q)}
+    if getresp:
+        d["getresp"] = True
+    if ret is not None:
+        d["return_srs_frq"] = bool(ret)
+    if qonly:
+        d["scale_by_Q_only"] = True
+    if note:
+        d["dtype"] = note
+    return d
+
+
+def _frf_cases(ctx, rng):
+    """(tag, frf, frf_frq, srs_frq|None, Q, getresp, return_srs_frq, scale_by_Q_only, tolerance, dtype note)"""
+    out = []
+    QS = [5.0, 10.0, 25.0, 50.0, 0.75, 12.5, 3.5, 20.0]
+
+    def rnd_frf(nf, nc, style):
+        re = rng.standard_normal((nf, nc))
+        if style == "magnitude":
+            return np.abs(re)
+        if style == "signed":
+            return re
+        return re + 1j * rng.standard_normal((nf, nc))
+
+    nrand = ctx.pick(60, 400)
+    for i in range(nrand):
+        nf = int(rng.integers(2, 13))
+        frq = np.sort(rng.uniform(1.0, 200.0, nf)) + np.arange(nf) * 1e-3
+        nc = int(rng.integers(1, 4))
+        style = ["magnitude", "signed", "complex"][i % 3]
+        frf = rnd_frf(nf, nc, style)
+        if nc == 1 and i % 2:
+            frf = frf[:, 0]  # 1-D packaging
+        ns = int(rng.integers(1, 6))
+        sf = rng.uniform(0.5, 260.0, ns)  # also outside the FRF band: zero fill
+        if i % 4 != 1:
+            sf = np.sort(sf)
+        if i % 7 == 0 and ns > 1:
+            sf[1] = sf[0]  # repeated oscillator
+        Q = float(QS[i % len(QS)]) if i % 5 else float(np.exp(rng.uniform(np.log(0.6), np.log(80.0))))
+        getresp = i % 2 == 0
+        ret = [None, None, True, False][i % 4]
+        out.append(("random:" + style, frf, frq, sf, Q, getresp, ret, False, 1e-9, None))
+    # default srs_frq (None): p_peak * (frf_frq / p_peak) lands on the FRF lines up to an ulp -> removed as near-duplicates
+    for i in range(ctx.pick(12, 60)):
+        nf = int(rng.integers(2, 10))
+        frq = np.sort(rng.uniform(1.0, 200.0, nf)) + np.arange(nf) * 1e-3
+        frf = rnd_frf(nf, int(rng.integers(1, 3)), ["magnitude", "complex"][i % 2])
+        out.append(("default-srs_frq", frf, frq, None, float(QS[i % len(QS)]), i % 2 == 0, [None, False, True][i % 3], False, 1e-9, None))
+    # near-duplicate removal: gaps around 1e-5 (with margin), chains, exact duplicates, a gap of exactly 1e-5
+    for i, gaps in enumerate(([0.0], [0.5e-5], [0.9e-5], [1.1e-5], [2e-5], [1e-4], [0.6e-5, 0.6e-5, 0.6e-5], [0.6e-5, 1.2e-5], [1.1e-5, 0.3e-5, 1.1e-5],
+                              [0.0, 0.0, 2e-5])):
+        for base in (0.0, 1.0, 37.5):
+            pts = [base]
+            for g in gaps:
+                pts.append(pts[-1] + g)
+            frq = np.array([base + 5.0, base + 9.0])
+            # the close entries come from p_peak * srs_frq of oscillators chosen so; and from the FRF lines themselves
+            Q = float(QS[(i + int(base)) % 4])
+            pp = Q * math.sqrt(math.sqrt(1 + 2 / Q ** 2) - 1)
+            if base > 0:
+                sf = np.array(pts) / pp
+                out.append(("near-duplicates:srs_frq", np.array([1.0, 2.0]), frq, sf, Q, True, None, False, 1e-9, None))
+            if len(set(pts)) == len(pts):
+                frq2 = np.array(pts + [base + 5.0, base + 9.0])
+                out.append(("near-duplicates:frf_frq", np.arange(1.0, len(frq2) + 1), frq2, np.array([base + 6.0]), Q, True, None, False, 1e-9, None))
+    out.append(("near-duplicates:gap-equal-tol", np.array([1.0, 2.0, 3.0]), np.array([0.0, 1e-5, 3e-5]), np.array([7.0]), 10.0, True, None, False, 1e-9, None))
+    out.append(("near-duplicates:gap-equal-tol", np.array([1.0, 2.0, 3.0]), np.array([0.0, 1.0000000000000003e-5 * 1.0000001, 4e-5]), np.array([7.0]), 10.0, True,
+                None, False, 1e-9, None))
+    # one FRF line: placed by searchsorted (before / inside / past the end of the grid)
+    for i in range(ctx.pick(9, 30)):
+        f0 = float(rng.uniform(5.0, 50.0))
+        sf = np.sort(rng.uniform(1.0, 80.0, int(rng.integers(1, 4))))
+        if i % 3 == 0:
+            sf = sf[sf < f0 * 0.9] if np.any(sf < f0 * 0.9) else np.array([f0 * 0.5])
+        Q = float(QS[i % 4])
+        frf = np.array([[float(rng.uniform(0.5, 3.0))]]) * (1j if i % 2 else 1.0)
+        out.append(("single-line", frf if i % 4 else frf[:, 0], np.array([f0]), sf, Q, i % 2 == 0, None, False, 1e-9, None))
+        out.append(("single-line:scale_by_Q", frf, np.array([f0]), sf, Q, False, None, True, 1e-9, None))
+    # scale_by_Q_only
+    for i in range(ctx.pick(16, 60)):
+        nf = int(rng.integers(2, 10))
+        frq = np.sort(rng.uniform(1.0, 200.0, nf)) + np.arange(nf) * 1e-3
+        frf = rnd_frf(nf, int(rng.integers(1, 3)), ["magnitude", "signed", "complex"][i % 3])
+        sf = None if i % 2 else np.sort(rng.uniform(0.5, 230.0, int(rng.integers(1, 6))))
+        out.append(("scale_by_Q" + (":default" if sf is None else ""), frf, frq, sf, float(QS[i % len(QS)]), False, [None, True, False][i % 3], True, 1e-9, None))
+    # rigid-body oscillators: (2 pi fn)^2 < 0.005, i.e. fn < 0.011254 Hz
+    for fn in (0.0, 0.005, 0.0112, 0.0113, 0.02):
+        frq = np.array([0.0, 0.004, 0.01, 0.05, 1.0])
+        out.append(("rigid-body-threshold", np.array([1.0, 2.0, 1.5, 1.0, 0.5]), frq, np.array([fn, 0.5]), 10.0, True, None, False, 1e-9, None))
+    # refused: getresp together with scale_by_Q_only
+    out.append(("raises", np.array([1.0, 2.0]), np.array([1.0, 2.0]), np.array([1.5]), 10.0, True, None, True, 1e-9, None))
+    # dtype axis
+    frq = np.array([1.0, 2.0, 5.0, 9.0, 14.0])
+    frf = np.array([1.0, 3.0, 2.0, 1.0, 4.0])
+    sf = np.array([2.0, 3.5, 8.0])
+    for note, F, f_, s_, tol in (
+        ("frf-float32", frf.astype(np.float32), frq, sf, 1e-9), ("frf_frq-float32", frf, frq.astype(np.float32), sf, 1e-9),
+        ("int", frf.astype(int), frq.astype(int), np.array([2, 3, 8]), 1e-9), ("lists", frf.tolist(), frq.tolist(), sf.tolist(), 1e-9),
+        ("complex64", (frf * (1 + 1j)).astype(np.complex64), frq, sf, 1e-6), ("srs_frq-float32", frf, frq, sf.astype(np.float32), 1e-5),
+    ):
+        for qonly in (False, True):
+            out.append(("dtype:" + note, F, f_, s_, 10.0, not qonly, None, qonly, tol, note))
+    return out
+
+
+def _corr_frf(ctx, srs, rng, add):
+    for tag, frf, frq, sf, Q, getresp, ret, qonly, tol, note in _frf_cases(ctx, rng):
+        frf2d = np.asarray(frf)
+        if frf2d.ndim == 1:
+            frf2d = frf2d.reshape(-1, 1)
+        frqd = np.asarray(frq, float)
+        sfd = None if sf is None else np.asarray(sf, float)
+        try:
+            out = srs.srs_frf(frf, frq, sf, Q, getresp=getresp, return_srs_frq=ret, scale_by_Q_only=qonly)
+            impl = out if isinstance(out, tuple) else (out,)
+        except ValueError as e:
+            impl = "raise ValueError"
+        except Exception as e:  # a mutated source may raise anything
+            impl = "raise " + type(e).__name__
+        line = _frf_line(frf2d.astype(complex), frqd, sfd, Q, getresp, ret, qonly)
+
+        def cb(reps, tag=tag, frf2d=frf2d, frqd=frqd, sfd=sfd, Q=Q, getresp=getresp, ret=ret, qonly=qonly, tol=tol, note=note, impl=impl):
+            inp = _frf_case_dict(frf2d, frqd, sfd, Q, getresp, ret, qonly, note)
+            try:
+                m = _parse_frf_reply(reps[0])
+            except ValueError:
+                ctx.disagree("frf", inp, "a result", reps[0][:60])
+                return
+            exact = _exact_square(Q) and note not in ("srs_frq-float32",)
+            ctx.count("frf:" + tag.split(":")[0])
+            ctx.count("frf:" + tag)
+            # branch bookkeeping from the *input* (an edit of the code must not make a declared branch disappear)
+            want_frq_in = (ret if ret is not None else sfd is None)
+            if not (getresp and qonly):
+                ctx.count("frf:returns-srs_frq" if want_frq_in else "frf:no-srs_frq")
+                ctx.count("frf:getresp" if getresp else "frf:no-resp")
+                if getresp:
+                    ctx.count("frf:grid-exact" if exact else "frf:grid-numeric")
+                    if m is not None and m["grid"] is not None and len(m["grid"]) < len(frqd) + (len(frqd) if sfd is None else len(sfd)):
+                        ctx.count("frf:grid-dropped-near-duplicates")
+            if isinstance(impl, str):
+                ctx.case(("frf", tag, line_key(inp)), nontrivial=True, branch="frf:raises")
+                if m is not None:
+                    ctx.disagree("frf-raises", inp, impl, "returns a spectrum")
+                return
+            if m is None:
+                ctx.case(("frf", tag, line_key(inp)), nontrivial=True)
+                ctx.disagree("frf-raises", inp, "returns a spectrum", "none (the model says the code raises)")
+                return
+            sh = np.asarray(impl[0])
+            want_frq = (ret if ret is not None else sfd is None)
+            k = 1
+            ifrq = iresp = None
+            if len(impl) > k and not isinstance(impl[k], dict):
+                ifrq = np.asarray(impl[k], float)
+                k += 1
+            if len(impl) > k and isinstance(impl[k], dict):
+                iresp = impl[k]
+            n_osc = len(frqd) if sfd is None else len(sfd)
+            ctx.case(("frf", tag, line_key(inp)), nontrivial=bool(np.any(sh != 0)))
+            # ---- exact: what is returned, shapes
+            obs = {"n_returned": len(impl), "srs_frq": ifrq is not None, "resp": iresp is not None, "sh_shape": list(sh.shape),
+                   "frfs_shape": None if iresp is None else list(np.shape(iresp["frfs"])),
+                   "freq_len": None if iresp is None else int(len(iresp["freq"])),
+                   "resp_keys": None if iresp is None else sorted(iresp)}
+            mod = {"n_returned": 1 + (m["frq"] is not None) + (m["grid"] is not None), "srs_frq": m["frq"] is not None,
+                   "resp": m["grid"] is not None, "sh_shape": list(m["sh"].shape),
+                   "frfs_shape": None if m["frfs"] is None else list(m["frfs"].shape),
+                   "freq_len": None if m["grid"] is None else int(len(m["grid"])),
+                   "resp_keys": None if m["grid"] is None else ["freq", "frfs", "srs_frq"]}
+            if obs != mod:
+                ctx.disagree("frf-shape", inp, obs, mod)
+                return
+            # ---- the analysis grid: exact (bit patterns) when p_peak is reproducible bit for bit
+            if iresp is not None:
+                gi = np.asarray(iresp["freq"], float)
+                ok = np.array_equal(gi, m["grid"]) if exact else bool(np.allclose(gi, m["grid"], rtol=1e-6 if note else 1e-13, atol=0))
+                if not ok:
+                    ctx.disagree("frf-grid", inp, gi.tolist()[:12], m["grid"].tolist()[:12])
+                    return
+                si = np.asarray(iresp["srs_frq"], float)
+                if si.shape != (n_osc,):
+                    ctx.disagree("frf-shape", inp, {"resp_srs_frq_len": int(si.size)}, {"resp_srs_frq_len": n_osc})
+                    return
+            if ifrq is not None:
+                ok = np.array_equal(ifrq, m["frq"]) if exact else bool(np.allclose(ifrq, m["frq"], rtol=1e-6 if note else 1e-13, atol=0))
+                if not ok:
+                    ctx.disagree("frf-srs_frq", inp, ifrq.tolist()[:8], m["frq"].tolist()[:8])
+                    return
+            # ---- values
+            amp = float(np.max(np.abs(frf2d))) * (Q if qonly else math.sqrt(Q * Q + 1))
+            scale = max(float(np.max(np.abs(sh))) if sh.size else 0.0, amp, 1e-300)
+            err = float(np.max(np.abs(sh - m["sh"]))) if sh.size else 0.0
+            _room(ctx, "frf", err / (tol * scale))
+            if not err <= tol * scale:
+                ij = np.unravel_index(int(np.argmax(np.abs(sh - m["sh"]))), sh.shape)
+                ctx.disagree("frf-sh", dict(inp, index=[int(v) for v in ij]), float(sh[ij]), float(m["sh"][ij]))
+                return
+            if iresp is not None:
+                fi = np.asarray(iresp["frfs"])
+                err = float(np.max(np.abs(fi - m["frfs"]))) if fi.size else 0.0
+                _room(ctx, "frf", err / (tol * scale))
+                if not err <= tol * scale:
+                    ij = np.unravel_index(int(np.argmax(np.abs(fi - m["frfs"]))), fi.shape)
+                    ctx.disagree("frf-frfs", dict(inp, index=[int(v) for v in ij]), [float(fi[ij].real), float(fi[ij].imag)],
+                                 [float(m["frfs"][ij].real), float(m["frfs"][ij].imag)])
+                    return
+            if len(ctx.samples) < 7 and tag.startswith("random") and iresp is not None:
+                ctx.sample({"stream": "frf", "frf_frq": frqd.tolist(), "srs_frq": None if sfd is None else sfd.tolist(), "Q": Q,
+                            "ffreq": np.asarray(iresp["freq"]).tolist(), "sh": sh.tolist()})
+
+        add([line], cb)
+
+
+def line_key(inp):
+    return repr(sorted((k, repr(v)) for k, v in inp.items()))
+
+
+def _freqvec_cases(ctx, rng):
+    """srs.srs inputs whose frequency vector has repeated (adjacent / apart), unsorted and zero entries, and the
+    dtype axis: (tags, sig, sr, freq, Q, opts, tolerance)"""
+    out = []
+    combos = [(st, ic) for st in STYPES for ic in ICS]
+    reps = ctx.pick(2, 8)
+    for r in range(reps):
+        for ci, (st, ic) in enumerate(combos):
+            Q, sr, fn = _rand_params(rng, hi=200.0)
+            g = min(sr / 2.05, fn * float(rng.uniform(1.3, 3.0)))
+            zero_ok = not (ic == "steady" and st in ("reldisp", "pvelo"))
+            shape = (ci + r) % 6
+            if shape == 0:
+                freqs, tag = [fn, fn], "repeated-adjacent"
+            elif shape == 1:
+                freqs, tag = [g, fn, fn, g, fn], "repeated-adjacent"
+            elif shape == 2:
+                freqs, tag = [fn, g, fn], "repeated-apart"
+            elif shape == 3:
+                freqs, tag = [g, fn, 0.5 * (fn + g)], "unsorted"
+            elif shape == 4 and zero_ok:
+                freqs, tag = [0.0, fn, 0.0, 0.0, g], "zero-repeated"
+            elif zero_ok:
+                freqs, tag = [g, 0.0, fn], "zero-unsorted"
+            else:
+                freqs, tag = [g, g, g, fn], "repeated-adjacent"
+            if r == 1 and ci % 4 == 0:
+                freqs, tag = [fn], "single"
+            tags = ["freqvec:" + tag]
+            if ic == "steady" and any(f == 0 for f in freqs):
+                tags.append("freqvec:zero+steady")
+            if ic == "steady" and tag.startswith("repeated"):
+                tags.append("freqvec:repeated+steady")
+            n = int(rng.choice([1, 2, 5, 24, 60]))
+            H = int(rng.integers(1, 4))
+            sig = _rand_sig(rng, n, H) + float(rng.uniform(1.0, 4.0))  # first sample away from zero: ic rules matter
+            oneD = H == 1 and (ci + r) % 2 == 0
+            pk = PEAKS[(ci + r) % 6]
+            tm = TIMES[(ci // 2 + r) % 3]
+            es = bool((ci + r) % 2)
+            if tag == "single":
+                H, oneD = 1, True
+                sig = sig[:, :1]
+            out.append((tags + ["shape:" + ("1-D" if oneD else "2-D") + (":LF=1" if len(freqs) == 1 else "")], sig[:, 0].copy() if oneD else sig, sr,
+                        freqs, Q, (st, ic, pk, tm, es), 1e-9))
+    # dtype axis
+    for i in range(ctx.pick(16, 64)):
+        st, ic = combos[(i * 5) % len(combos)]
+        pk = PEAKS[i % 6]
+        tm = TIMES[i % 3]
+        es = bool(i % 2)
+        sr = float(rng.choice([200.0, 1000.0, 4096.0]))
+        # frequencies that single precision holds exactly and whose cycle length sr/f is far from an integer
+        # (with a float32 `freq` the number of appended samples ceil(sr / minf) is evaluated in single precision)
+        cand = [f for f in np.arange(2.25, sr / 4.0, 0.25) if 0.15 < (sr / f) % 1.0 < 0.85]
+        f1, f2 = [float(v) for v in rng.choice(cand, 2, replace=False)]
+        n = int(rng.choice([3, 17, 40]))
+        H = int(rng.integers(1, 3))
+        base = np.round(_rand_sig(rng, n, H) * 8.0 + 3.0)
+        kind = ["sig-float32", "sig-int", "sig-list", "freq-float32", "freq-int", "freq-list"][i % 6]
+        Q = float(rng.choice([5.0, 10.0, 25.0]))
+        freqs = [f1, f2]
+        sig = base / 8.0
+        tol = 1e-9
+        if kind == "sig-float32":
+            sig = (sig + rng.standard_normal(sig.shape)).astype(np.float32)
+            tol = 1e-6 if ic != "zero" else 1e-9  # the ic rule subtracts in single precision
+        elif kind == "sig-int":
+            sig = base.astype(int)
+        elif kind == "sig-list":
+            sig = sig.tolist()
+        elif kind == "freq-float32":
+            freqs = np.array(freqs, np.float32)
+        elif kind == "freq-int":
+            freqs = np.array([int(max(3, round(f1))), int(max(4, round(f2)) + 1)])
+        else:
+            freqs = [f1, f2]
+        out.append((["dtype:" + kind], sig, sr, freqs, Q, (st, ic, pk, tm, es), tol))
+    return out
+
+
+def _corr_freqvec(ctx, srs, rng, add):
+    for tags, sig, sr, freqs, Q, opts, tol in _freqvec_cases(ctx, rng):
+        st, ic, pk, tm, es = opts
+        try:
+            sh, resp = srs.srs(sig, sr, freqs, Q, ic=ic, stype=st, peak=pk, rolloff="none", eqsine=es, time=tm, getresp=True, parallel="no")
+            impl = ("ok", np.asarray(sh), np.asarray(resp["hist"]), float(resp["sr"]), np.asarray(resp["t"]))
+        except Exception as e:
+            impl = ("raise", type(e).__name__)
+        sig2d = np.asarray(sig, float)
+        one = sig2d.ndim == 1
+        if one:
+            sig2d = sig2d.reshape(-1, 1)
+        fl64 = [float(f) for f in np.asarray(freqs, float)]
+        pairs = _srs_requests(opts, Q, sr, fl64, sig2d)
+        keys = [k for k, _ in pairs]
+        s1max = float(np.max(np.abs(sig2d[0])))
+        pos = [2 * math.pi * f for f in fl64 if f > 0]
+        addb = 0.0
+        if ic == "steady":
+            addb = {"reldisp": s1max / min(pos) ** 2, "pvelo": s1max / min(pos)}.get(st, s1max)
+        flo = _floors(st, sig2d, sr, fl64, Q, es)
+
+        def cb(reps, impl=impl, keys=keys, tags=tags, sig2d=sig2d, one=one, sr=sr, fl64=fl64, Q=Q, opts=opts, tol=tol, addb=addb, flo=flo):
+            st, ic, pk, tm, es = opts
+            inp = _case_dict(sig2d[:, 0] if one else sig2d, sr, fl64, Q, st, ic, pk, tm, es)
+            if len(tags) and tags[0].startswith("dtype:"):
+                inp["dtype"] = tags[0][6:]
+            for tg in tags:
+                ctx.count(tg)
+            if impl[0] == "ok":
+                # exact: shapes of sh and of resp['hist'] against the model's window length
+                H, LF = sig2d.shape[1], len(fl64)
+                mlens = set()
+                for rep in reps:
+                    if rep not in ("none", "bad-op"):
+                        mlens.add(len(rep.split()) - 1)
+                obs = {"sh_shape": list(impl[1].shape), "hist_shape": list(impl[2].shape), "t_len": int(impl[4].shape[0])}
+                T = mlens.pop() if len(mlens) == 1 else None
+                want = {"sh_shape": [LF] if one else [LF, H], "hist_shape": [T, H, LF], "t_len": T}
+                if obs != want:
+                    ctx.disagree("shape", inp, obs, want)
+                    ctx.case(("freqvec", line_key(inp)), nontrivial=True)
+                    return
+                impl = ("ok", np.asarray(impl[1], float).reshape(LF, H), np.asarray(impl[2], float), impl[3], impl[4])
+            nt = _cmp_hist(ctx, "freqvec" if tol == 1e-9 else "freqvec-float32", inp, impl, reps, keys,
+                           extra_scale=addb / (Q if es else 1.0), tol=tol, floors=flo)
+            ctx.case(("freqvec", line_key(inp)), nontrivial=nt)
+
+        add([l for _, l in pairs], cb)
+
+
+def _ms_peak(resp):
+    return (resp ** 2).mean(axis=0)
+
+
+def _abs_peak(resp):
+    return abs(resp).max(axis=0)
+
+
+def _corr_callable(ctx, srs, rng, add):
+    for i in range(ctx.pick(48, 200)):
+        st = STYPES[i % 6]
+        ic = ICS[(i // 6) % 4]
+        tm = TIMES[(i // 2) % 3]
+        es = bool(i % 2)
+        which = "ms" if (i // 3) % 2 == 0 else "abs"
+        Q, sr, fn = _rand_params(rng, hi=200.0)
+        freqs = [fn] if i % 3 else [fn, min(sr / 2.05, 1.9 * fn)]
+        n = int(rng.choice([1, 2, 9, 40]))
+        H = int(rng.integers(1, 3))
+        sig2d = _rand_sig(rng, n, H) + 1.5
+        fun = _ms_peak if which == "ms" else _abs_peak
+        try:
+            sh, resp = srs.srs(sig2d, sr, freqs, Q, ic=ic, stype=st, peak=fun, rolloff="none", eqsine=es, time=tm, getresp=True, parallel="no")
+            impl = ("ok", np.asarray(sh, float).reshape(len(freqs), H), np.asarray(resp["hist"], float), float(resp["sr"]), np.asarray(resp["t"]))
+        except Exception as e:
+            impl = ("raise", type(e).__name__)
+        head = "srsg %s %s %s %s %d %s %s %d %s" % (which, st, ic, tm, 1 if es else 0, _bits(Q), _bits(sr), len(freqs), _fl(freqs))
+        lines, keys = [], []
+        for j, f in enumerate(freqs):
+            for c in range(H):
+                lines.append("%s %s %s" % (head, _bits(f), _fl(sig2d[:, c])))
+                keys.append((j, c))
+        flo = _floors(st, sig2d, sr, freqs, Q, es)
+        if which == "ms":  # the statistic is quadratic in the history
+            flo = {k: v * v * (Q if es else 1.0) for k, v in flo.items()}
+
+        def cb(reps, impl=impl, keys=keys, which=which, st=st, ic=ic, tm=tm, es=es, Q=Q, sr=sr, freqs=freqs, sig2d=sig2d, flo=flo):
+            inp = dict(_case_dict(sig2d, sr, freqs, Q, st, ic, "callable:" + which, tm, es), kind="srsg")
+            ctx.count("callable:%s:eqsine=%s" % (which, es))
+            if which == "ms" and impl[0] == "ok":
+                # the history is compared on its own scale, the mean square on its own
+                _, sh, hist, _, _ = impl
+                ok = True
+                for (j, c), rep in zip(keys, reps):
+                    if rep in ("none", "bad-op"):
+                        ctx.disagree("callable", inp, {"sh": float(sh[j, c])}, rep)
+                        ok = False
+                        break
+                    m = _parse(rep)
+                    hs = max(float(np.max(np.abs(hist[:, c, j]))) if hist.shape[0] else 0.0, 1e-300)
+                    if m[1:].shape != hist[:, c, j].shape or np.max(np.abs(m[1:] - hist[:, c, j])) > 1e-9 * max(hs, flo[(j, c)] ** 0.5):
+                        ctx.disagree("callable", dict(inp, freq_index=j, column=c), {"hist": hist[:3, c, j].tolist()}, {"hist": m[1:4].tolist()})
+                        ok = False
+                        break
+                    ps = max(abs(sh[j, c]), flo[(j, c)], 1e-300)
+                    _room(ctx, "callable", abs(m[0] - sh[j, c]) / (1e-9 * ps))
+                    if abs(m[0] - sh[j, c]) > 1e-9 * ps:
+                        ctx.disagree("callable", dict(inp, freq_index=j, column=c), {"sh": float(sh[j, c])}, {"sh": float(m[0])})
+                        ok = False
+                        break
+                ctx.case(("callable", line_key(inp)), nontrivial=ok and bool(np.any(hist != 0)))
+                return
+            nt = _cmp_hist(ctx, "callable", inp, impl, reps, keys, floors=flo,
+                           extra_scale=float(np.max(np.abs(sig2d[0]))) * (1.0 if st in ("absacce", "pacce") else 0.0))
+            ctx.case(("callable", line_key(inp)), nontrivial=nt)
+
+        add(lines, cb)
 
 
 # ---------------------------------------------------------------------------------------
@@ -1125,9 +1663,14 @@ def _oracle_relations(case):
     def S(sig=sig, stype=st, peak="abs", time="primary", eqsine=False):
         return np.asarray(srs.srs(sig, sr, freqs, Q, stype=stype, peak=peak, time=time, eqsine=eqsine, **kw), float)
 
+    def plain(v):
+        if isinstance(v, (list, tuple)):
+            return [plain(x) for x in v]
+        return np.asarray(v).tolist()
+
     def bad(fam, what, obs, req, **more):
         fails.append({"family": "relation:" + fam, "what": what, "input": dict(case, **more),
-                      "observed": np.asarray(obs).tolist(), "required": np.asarray(req).tolist()})
+                      "observed": plain(obs), "required": plain(req)})
 
     for tm in TIMES:
         a, p, n_ = S(time=tm), S(peak="pos", time=tm), S(peak="neg", time=tm)
@@ -1159,6 +1702,64 @@ def _oracle_relations(case):
         one = S(sig=sig[:, 0].copy())
         if one.shape != (len(freqs),) or np.max(np.abs(one - pri[:, 0])) > ptol:
             bad("packaging-1d-2d:%s" % st, "1-D packaging of a column gives another spectrum", one, pri[:, 0])
+    # ---- the frequency vector: permutation / repetition of entries permutes / repeats the rows (bit for bit), also
+    # in the histories; in particular two equal entries give equal rows whatever stands between them
+    LF = len(freqs)
+    idx = list(range(LF))[::-1] + [0, 0, LF - 1]
+    f2 = [freqs[i] for i in idx]
+    for tm in TIMES:
+        for pk in ("abs", "rms"):
+            a, ra = srs.srs(sig, sr, freqs, Q, stype=st, peak=pk, time=tm, getresp=True, **kw)
+            b, rb = srs.srs(sig, sr, f2, Q, stype=st, peak=pk, time=tm, getresp=True, **kw)
+            a, b = np.asarray(a, float), np.asarray(b, float)
+            if b.shape[0] != len(f2) or not np.array_equal(b, a[idx]) or not np.array_equal(rb["hist"], ra["hist"][:, :, idx]):
+                bad("frequency-vector:%s:ic=%s" % (st, ic), "re-ordering / repeating entries of freq does not re-order / repeat the rows of sh "
+                    "and the last axis of resp['hist']", b, a[idx], time=tm, freq_reordered=f2, peak=pk)
+                break
+    # ---- shapes
+    sh2, r2 = srs.srs(sig, sr, freqs, Q, stype=st, getresp=True, time="total", **kw)
+    H = 1 if sig.ndim == 1 else sig.shape[1]
+    want_sh = (LF,) if sig.ndim == 1 else (LF, H)
+    if np.shape(sh2) != want_sh or r2["hist"].shape[1:] != (H, LF) or r2["hist"].shape[0] != len(r2["t"]):
+        bad("shapes", "sh.shape is not (len(freq), nsignals) / resp['hist'].shape is not (len(t), nsignals, len(freq))",
+            [list(np.shape(sh2)), list(r2["hist"].shape)], [list(want_sh), [len(r2["t"]), H, LF]])
+    col1 = sig if sig.ndim == 1 else sig[:, 0].copy()
+    for fr1 in ([freqs[0]], freqs[0]):  # one oscillator, as a vector and as a scalar
+        o1, r1 = srs.srs(col1, sr, fr1, Q, stype=st, getresp=True, **kw)
+        # ('mshift' subtracts a column mean whose summation order depends on the memory layout)
+        ref1 = float(np.asarray(pri).reshape(LF, -1)[0, 0])
+        if np.shape(o1) != (1,) or r1["hist"].shape != (len(col1), 1, 1) or \
+                abs(float(np.asarray(o1)[0]) - ref1) > (1e-12 * abs(ref1) if ic == "mshift" else 0.0):
+            bad("shapes:one-frequency", "a 1-D signal with one oscillator: sh.shape is not (1,) / hist.shape is not (N, 1, 1) / value differs",
+                [list(np.shape(o1)), list(r1["hist"].shape)], [[1], [len(col1), 1, 1]])
+            break
+    # ---- callable peaks, rms
+    ca = S(peak=_abs_peak)
+    if not np.array_equal(ca, pri):
+        bad("callable-peak:abs", "a callable peak equal to the built-in 'abs' gives another spectrum", ca, pri)
+    ms, mse = S(peak=_ms_peak), S(peak=_ms_peak, eqsine=True)
+    if np.max(np.abs(mse * Q - ms)) > 1e-12 * max(np.max(np.abs(ms)), 1e-300):
+        bad("callable-peak:eqsine", "eqsine with a callable peak is not the spectrum divided by Q", mse, ms / Q)
+    rms, rmse = S(peak="rms"), S(peak="rms", eqsine=True)
+    if np.any(rms > pri * (1 + 1e-12)) or np.any(rms < 0) or np.max(np.abs(np.sqrt(ms) - rms)) > 1e-12 * max(np.max(rms), 1e-300) or \
+            np.max(np.abs(rmse * Q - rms)) > 1e-12 * max(np.max(rms), 1e-300):
+        bad("rms:%s" % st, "rms peak: not within [0, abs], not sqrt(mean square) or not divided by Q with eqsine", rms, pri)
+    # ---- dtype axis: the same numbers as float32 / int / list give the same spectrum
+    s32 = np.asarray(sig, np.float32)
+    t32 = 0.0 if ic == "zero" else 1e-6
+    a, b = S(sig=s32), S(sig=s32.astype(float))
+    if a.shape != b.shape or np.max(np.abs(a - b)) > t32 * max(np.max(np.abs(b)), 1e-300):
+        bad("dtype:float32-signal:%s:ic=%s" % (st, ic), "a float32 signal gives another spectrum than the same numbers as float64", a, b)
+    si = np.round(np.asarray(sig) * 4)
+    a, b, c_ = S(sig=si.astype(int)), S(sig=si), S(sig=si.tolist())
+    if a.shape != b.shape or np.max(np.abs(a - b)) > 1e-12 * max(np.max(np.abs(b)), 1e-300) or not np.array_equal(b, c_):
+        bad("dtype:int-or-list-signal:%s:ic=%s" % (st, ic), "an integer / list signal gives another spectrum than the same numbers as float64", a, b)
+    fr32 = np.maximum(np.round(np.asarray(freqs) * 4) / 4, 0.25)
+    a = np.asarray(srs.srs(sig, sr, fr32.astype(np.float32), Q, stype=st, **kw), float)
+    b = np.asarray(srs.srs(sig, sr, fr32, Q, stype=st, **kw), float)
+    c_ = np.asarray(srs.srs(sig, sr, fr32.tolist(), Q, stype=st, **kw), float)
+    if a.shape != b.shape or not np.array_equal(a, b) or not np.array_equal(b, c_):
+        bad("dtype:float32-or-list-freq:%s" % st, "a float32 / list frequency vector gives another spectrum than the same numbers as float64", a, b)
     if all(f > 0 for f in freqs):
         w = 2 * math.pi * np.asarray(freqs)
         # a one-sample record with ic='steady' (sr may be None) returns the static response
@@ -1179,6 +1780,9 @@ def _oracle_relations(case):
 
 
 def _oracle_frf(case):
+    """srs_frf restated on the public API: documented transfer function, maximum over the union grid
+    with near-duplicates removed, magnitude before interpolation, zero outside the FRF band,
+    scale_by_Q_only, the return_srs_frq / srs_frq=None defaults and the getresp dictionary."""
     from pyyeti import srs
 
     fails = []
@@ -1186,33 +1790,106 @@ def _oracle_frf(case):
     frf = np.asarray(case["frf"], float)
     if case.get("frf_imag") is not None:
         frf = frf + 1j * np.asarray(case["frf_imag"], float)
-    sf = np.asarray(case["srs_frq"], float)
+    if frf.ndim == 1:
+        frf = frf.reshape(-1, 1)
     Q = case["Q"]
+    p_peak = Q * math.sqrt(math.sqrt(1 + 2 / Q ** 2) - 1)
+    sf_in = case.get("srs_frq")
+    sf = frq / p_peak if sf_in is None else np.asarray(sf_in, float)
+
+    def bad(fam, what, obs, req):
+        fails.append({"family": "srs_frf:" + fam, "what": what, "input": case, "observed": obs, "required": req})
+
+    if case.get("getresp") and case.get("scale_by_Q_only"):
+        try:
+            srs.srs_frf(frf, frq, sf, Q, getresp=True, scale_by_Q_only=True)
+            bad("getresp+scale_by_Q_only-accepted", "getresp together with scale_by_Q_only is documented to be refused", "returns", "ValueError")
+        except ValueError:
+            pass
+        return fails
     sh = np.asarray(srs.srs_frf(frf, frq, sf, Q), float)
     shq = np.asarray(srs.srs_frf(frf, frq, sf, Q, scale_by_Q_only=True), float)
     sh_abs = np.asarray(srs.srs_frf(np.abs(frf), frq, sf, Q), float)
     if sh.shape != sh_abs.shape or np.max(np.abs(sh - sh_abs)) > 1e-12 * max(np.max(np.abs(sh_abs)), 1e-300):
-        fails.append({"family": "srs_frf:not-the-spectrum-of-the-magnitude", "what": "srs_frf(frf) differs from srs_frf(|frf|) "
-                      "(documented: the absolute value is taken before interpolating)", "input": case, "observed": sh.tolist(),
-                      "required": sh_abs.tolist()})
-    p_peak = Q * math.sqrt(math.sqrt(1 + 2 / Q ** 2) - 1)
+        bad("not-the-spectrum-of-the-magnitude", "srs_frf(frf) differs from srs_frf(|frf|) (documented: the absolute value is taken "
+            "before interpolating)", sh.tolist(), sh_abs.tolist())
     ff = np.sort(np.hstack((frq, p_peak * sf)))
     keep = np.ones(len(ff), bool)
     keep[1:] = np.diff(ff) > 1e-5
     ff = ff[keep]
     want = np.empty((len(sf), frf.shape[1]))
+    resp_want = np.empty((len(ff), frf.shape[1], len(sf)), complex)
     for c in range(frf.shape[1]):
-        amp = np.interp(ff, frq, np.abs(frf[:, c]), left=0.0, right=0.0)
+        if len(frq) > 1:
+            amp = np.interp(ff, frq, np.abs(frf[:, c]), left=0.0, right=0.0)
+        else:  # one FRF line: on the grid point that holds it
+            amp = np.zeros(len(ff))
+            amp[min(int(np.searchsorted(ff, frq[0])), len(ff) - 1)] = abs(frf[0, c])
         for i, fn in enumerate(sf):
-            T = (fn ** 2 + 1j * ff * fn / Q) / (fn ** 2 - ff ** 2 + 1j * ff * fn / Q)
+            if (2 * math.pi * fn) ** 2 < 0.005:
+                T = np.zeros(len(ff), complex)  # rigid-body mode: no absolute acceleration
+            else:
+                T = (fn ** 2 + 1j * ff * fn / Q) / (fn ** 2 - ff ** 2 + 1j * ff * fn / Q)
+            resp_want[:, c, i] = amp * T
             want[i, c] = np.max(amp * np.abs(T))
-    if sh.shape != want.shape or np.max(np.abs(sh - want)) > 1e-9 * np.max(np.abs(want)):
-        fails.append({"family": "srs_frf:transmissibility", "what": "srs_frf differs from max |FRF| x |(wn^2 + i W wn/Q)/(wn^2 - W^2 + i W wn/Q)|",
-                      "input": case, "observed": sh.tolist(), "required": want.tolist()})
-    wq = np.column_stack([np.interp(sf, frq, np.abs(frf[:, c]), left=0.0, right=0.0) for c in range(frf.shape[1])]) * Q
-    if shq.shape != wq.shape or np.max(np.abs(shq - wq)) > 1e-9 * max(np.max(np.abs(wq)), 1e-300):
-        fails.append({"family": "srs_frf:scale_by_Q_only", "what": "scale_by_Q_only result is not Q x |FRF|",
-                      "input": case, "observed": shq.tolist(), "required": wq.tolist()})
+    scale = max(float(np.max(np.abs(want))), float(np.max(np.abs(frf))), 1e-300)
+    if sh.shape != want.shape or np.max(np.abs(sh - want)) > 1e-9 * scale:
+        bad("transmissibility", "srs_frf differs from max over the merged grid of |FRF| x |(wn^2 + i W wn/Q)/(wn^2 - W^2 + i W wn/Q)|",
+            sh.tolist(), want.tolist())
+    if len(frq) > 1:
+        wq = np.column_stack([np.interp(sf, frq, np.abs(frf[:, c]), left=0.0, right=0.0) for c in range(frf.shape[1])]) * Q
+        if shq.shape != wq.shape or np.max(np.abs(shq - wq)) > 1e-9 * max(np.max(np.abs(wq)), 1e-300):
+            bad("scale_by_Q_only", "scale_by_Q_only result is not Q x |FRF| (linear interpolation, zero outside the FRF band)",
+                shq.tolist(), wq.tolist())
+        d = srs.srs_frf(frf, frq, None, Q, scale_by_Q_only=True)
+        if not (isinstance(d, tuple) and len(d) == 2 and np.array_equal(np.asarray(d[1], float), frq)
+                and np.asarray(d[0]).shape == frf.shape and np.max(np.abs(np.asarray(d[0]) - Q * np.abs(frf))) <= 1e-12 * Q * np.max(np.abs(frf))):
+            bad("scale_by_Q_only:default", "srs_frf(frf, frf_frq, None, Q, scale_by_Q_only=True) is not (Q |frf|, frf_frq)",
+                [np.asarray(v).tolist() for v in (d if isinstance(d, tuple) else (d,))], [(Q * np.abs(frf)).tolist(), frq.tolist()])
+    elif np.all(np.diff(sf) > 0):
+        # one FRF line: attributed to the first analysis frequency not below it (the last one if there is none)
+        wq = np.zeros((len(sf), frf.shape[1]))
+        wq[min(int(np.searchsorted(sf, frq[0])), len(sf) - 1)] = Q * np.abs(frf[0])
+        if shq.shape != wq.shape or np.max(np.abs(shq - wq)) > 1e-12 * max(np.max(np.abs(wq)), 1e-300):
+            bad("scale_by_Q_only:single-line", "one FRF line with scale_by_Q_only: Q x |FRF| is not on the first analysis frequency at or "
+                "above the line (last one if none)", shq.tolist(), wq.tolist())
+    # ---- getresp dictionary
+    r = srs.srs_frf(frf, frq, sf, Q, getresp=True)
+    if not (isinstance(r, tuple) and len(r) == 2 and isinstance(r[1], dict) and sorted(r[1]) == ["freq", "frfs", "srs_frq"]):
+        bad("getresp:returns", "getresp=True with a given srs_frq must return (sh, resp) with resp = {'freq', 'frfs', 'srs_frq'}",
+            repr(type(r)), "(sh, dict)")
+        return fails
+    sh2, resp = r
+    fr = np.asarray(resp["frfs"])
+    if not np.array_equal(np.asarray(resp["freq"], float), ff):
+        bad("getresp:freq-grid", "resp['freq'] is not the sorted union of frf_frq and p_peak*srs_frq with entries closer than 1e-5 "
+            "to their predecessor removed", np.asarray(resp["freq"]).tolist()[:12], ff.tolist()[:12])
+    elif fr.shape != resp_want.shape or not np.array_equal(np.asarray(sh2, float), sh) or \
+            not np.array_equal(np.asarray(resp["srs_frq"], float), sf):
+        bad("getresp:shapes", "resp['frfs'].shape is not (len(freq), nfrf, len(srs_frq)), or sh / srs_frq changed with getresp",
+            {"frfs_shape": list(fr.shape)}, {"frfs_shape": list(resp_want.shape)})
+    else:
+        if np.max(np.abs(fr - resp_want)) > 1e-9 * scale:
+            k = np.unravel_index(int(np.argmax(np.abs(fr - resp_want))), fr.shape)
+            bad("getresp:frfs", "resp['frfs'][k, j, i] is not |FRF_j|(freq_k) x transfer function of oscillator i",
+                {"index": [int(v) for v in k], "value": [float(fr[k].real), float(fr[k].imag)]},
+                {"index": [int(v) for v in k], "value": [float(resp_want[k].real), float(resp_want[k].imag)]})
+        if np.max(np.abs(np.abs(fr).max(axis=0).T - sh)) > 1e-12 * scale:
+            bad("getresp:sh-is-not-peak-of-frfs", "sh is not max over frequency of |resp['frfs']|", sh.tolist(), np.abs(fr).max(axis=0).T.tolist())
+    # ---- defaults
+    d = srs.srs_frf(frf, frq, None, Q)
+    d3 = srs.srs_frf(frf, frq, sf, Q, return_srs_frq=True)
+    d4 = srs.srs_frf(frf, frq, None, Q, return_srs_frq=False)
+    okd = isinstance(d, tuple) and len(d) == 2 and not isinstance(d[1], dict) and np.asarray(d[1]).shape == frq.shape and \
+        np.max(np.abs(np.asarray(d[1], float) - frq / p_peak)) <= 1e-14 * np.max(np.abs(frq))
+    okd = okd and isinstance(d3, tuple) and len(d3) == 2 and np.array_equal(np.asarray(d3[1], float), sf) and not isinstance(d4, tuple)
+    okd = okd and np.array_equal(np.asarray(d4), np.asarray(d[0])) and np.array_equal(np.asarray(d3[0], float), sh)
+    if okd:
+        again = np.asarray(srs.srs_frf(frf, frq, np.asarray(d[1]), Q), float)
+        okd = np.array_equal(again, np.asarray(d[0], float))
+    if not okd:
+        bad("defaults", "srs_frq=None must mean frf_frq / p_peak and be returned by default; return_srs_frq=True/False must add / drop it "
+            "without changing sh", "see input", "(sh, frf_frq / p_peak)")
     return fails
 
 
@@ -1323,11 +2000,20 @@ def _hint_cases(hints, rng):
         if inp.get("kind") == "srs":
             c = {k: inp[k] for k in ("kind", "sig", "sr", "freq", "Q", "stype", "ic", "peak", "time", "eqsine")}
             c["rolloff"] = inp.get("rolloff", "none")
+            if len(set(c["freq"])) < len(c["freq"]) and len(np.asarray(c["sig"]).reshape(-1)) and all(f > 0 for f in c["freq"]):
+                out.append(dict(c, kind="relations", peak="abs", time="primary", eqsine=False))
             if "ppc" in inp:
                 c["ppc"] = inp["ppc"]
             if len(np.asarray(c["sig"]).reshape(-1)) == 0:
                 continue
             out.append(c)
+        elif inp.get("kind") == "frf":
+            out.append({k: inp.get(k) for k in ("kind", "frf_frq", "frf", "frf_imag", "srs_frq", "Q")})
+            if inp.get("getresp") and inp.get("scale_by_Q_only"):
+                out.append(dict(out[-1], getresp=True, scale_by_Q_only=True))
+        elif inp.get("kind") == "srsg":
+            c = {k: inp[k] for k in ("sig", "sr", "freq", "Q", "stype", "ic", "time", "eqsine")}
+            out.append(dict(c, kind="relations", peak="abs", rolloff="none"))
         elif inp.get("kind") == "coef" and inp.get("wn", 0) > 0:
             sig = _rand_sig(rng, 40, 1)[:, 0]
             for tm in ("primary", "total"):
@@ -1376,7 +2062,7 @@ def search(ctx, hints):
         for ic in ICS:
             Q, sr, fn = _rand_params(rng, hi=200.0)
             sig = _rand_sig(rng, int(rng.choice([8, 40])), int(rng.integers(1, 4)))
-            c = _case_dict(sig, sr, [fn, min(sr / 2.05, fn * 1.7)], Q, st, ic, "abs", "primary", False)
+            c = _case_dict(sig + (2.0 if ic == "steady" else 0.0), sr, [fn, min(sr / 2.05, fn * 1.7)], Q, st, ic, "abs", "primary", False)
             c["kind"] = "relations"
             cases.append(c)
     for i in range(ctx.pick(4, 20)):
@@ -1393,6 +2079,28 @@ def search(ctx, hints):
         cases.append({"kind": "frf", "frf_frq": frq.tolist(), "frf": re.tolist(), "frf_imag": None if im is None else im.tolist(),
                       "srs_frq": np.sort(rng.uniform(2.0, 480.0, int(rng.integers(1, 6)))).tolist(),
                       "Q": float(rng.choice([5.0, 10.0, 25.0, 50.0]))})
+        # FRF lines closer than / just farther apart than 1e-5, oscillators whose peak frequency falls next to a line, oscillators
+        # outside the FRF band, one FRF line, the default srs_frq
+        Qf = float(rng.choice([5.0, 10.0, 25.0, 50.0]))
+        ppk = Qf * math.sqrt(math.sqrt(1 + 2 / Qf ** 2) - 1)
+        base = float(rng.uniform(5.0, 60.0))
+        gaps = [[0.6e-5, 0.6e-5], [1.1e-5], [0.9e-5, 1.2e-5], [2e-5, 0.4e-5]][i % 4]
+        lines = [base]
+        for g in gaps:
+            lines.append(lines[-1] + g)
+        lines += [base + 3.0, base + 11.0]
+        cases.append({"kind": "frf", "frf_frq": lines, "frf": (1.0 + rng.random((len(lines), 1))).tolist(), "frf_imag": None,
+                      "srs_frq": [(base + 3.0 + 0.5e-5) / ppk, (base + 11.0 + 3e-5) / ppk, 0.3 * base, 2.5 * base + 40.0], "Q": Qf})
+        cases.append({"kind": "frf", "frf_frq": [base], "frf": [[float(rng.uniform(0.5, 2.0))]], "frf_imag": [[float(rng.uniform(-1, 1))]],
+                      "srs_frq": [0.5 * base, base / ppk, 1.7 * base][: 1 + i % 3], "Q": Qf})
+        # one FRF line that is merged into a peak frequency just below it and is the highest analysis frequency
+        cases.append({"kind": "frf", "frf_frq": [base], "frf": [[1.5]], "frf_imag": None,
+                      "srs_frq": [0.4 * base, (base - 0.4e-5) / ppk], "Q": Qf})
+        cases.append({"kind": "frf", "frf_frq": frq.tolist(), "frf": re.tolist(), "frf_imag": None if im is None else im.tolist(),
+                      "srs_frq": None, "Q": Qf})
+        if i == 0:
+            cases.append({"kind": "frf", "frf_frq": [1.0, 2.0], "frf": [[1.0], [2.0]], "frf_imag": None, "srs_frq": [1.5], "Q": 10.0,
+                          "getresp": True, "scale_by_Q_only": True})
         F = np.array([20.0, 150.0, 600.0, 2000.0])
         Pp = rng.uniform(0.001, 0.1, 4).tolist()
         Qv = float(rng.choice([5.0, 10.0, 25.0]))
@@ -1451,7 +2159,7 @@ def replay(ctx, data):
     if not f:
         return None
     case = dict(f["input"])
-    for k in ("freq_index", "column", "k", "perm", "Fn_value"):
+    for k in ("freq_index", "column", "k", "perm", "Fn_value", "index", "freq_reordered"):
         case.pop(k, None)
     r = _oracle_case(case)
     return r[0] if r else None
